@@ -310,6 +310,15 @@ def family_mutate(full):
         if full:
             out.append(fixup([["init", ENTRY_OF_GROUP[g], "T2"], ["mutate", p, route, "T1"], obs]))
             out.append(fixup([["mutate", p, route, "T1"], ["init", ENTRY_OF_GROUP[g], "T2"], obs]))
+    # after customising T1, T1's own calculators run first (this primes any memo keyed by something
+    # that does not include the table), then the public table and T2 are observed by the final digest
+    for p, route, g in MUTATE:
+        calcs = [c for c, gg in c09.CALC_GROUP.items() if gg == g and c not in H.NO_TABLE_CALCS]
+        out.append(fixup([["mutate", p, route, "T1"]] + [["calc", c, "T1"] for c in calcs] + [["create", "T2"]]))
+    for p, route, val, g in ASSIGN:
+        if g is not None:
+            calcs = [c for c, gg in c09.CALC_GROUP.items() if gg == g and c not in H.NO_TABLE_CALCS]
+            out.append(fixup([["assign", p, route, "T1", val]] + [["calc", c, "T1"] for c in calcs]))
     for p, route, val, g in ASSIGN:
         out.append(fixup([["assign", p, route, "T1", val], ["create", "T2"]]))
         if full:
